@@ -26,8 +26,14 @@ Lemma len_0 d : len d = 0 -> d = [].
 Proof. unfold len. destruct d; auto. simpl. lia. Qed.
 
 (* ---- evaluation of the raw-memory primitives on known shapes ---- *)
-Lemma read_static m d : read m (mkcow (PStatic d) (len d) 0) = inr d.
-Proof. unfold read. simpl. rewrite N.leb_refl, take_all. reflexivity. Qed.
+Lemma read_static m buf off d : slice buf off (len d) = Some d -> read m (mkcow (PStatic buf off) (len d) 0) = inr d.
+Proof. intros H. unfold read. simpl. rewrite H. reflexivity. Qed.
+
+Lemma slice_len buf off n d : slice buf off n = Some d -> len d = n.
+Proof.
+  unfold slice. destruct (N.leb_spec (off + n) (len buf)); [|discriminate]. intros E. inversion E; subst. clear E.
+  unfold take, len in *. rewrite firstn_length, skipn_length. lia.
+Qed.
 Lemma read_heap m a d cap : nth_error (allocs m) a = Some (mkalloc d cap false) -> read m (mkcow (PHeap a) (len d) cap) = inr d.
 Proof. intros E. unfold read. simpl. rewrite E. simpl. rewrite N.leb_refl, take_all. reflexivity. Qed.
 Lemma read_arc m r x : nth_error (arcs m) r = Some x -> r_freed x = false -> read m (mkcow (PArc r) (len (r_data x)) MAXU) = inr (r_data x).
@@ -109,10 +115,11 @@ Proof.
   - left. auto.
 Qed.
 
-Lemma sim_FromBorrowed tr m s d : Rst m s -> len d <= ISZ -> sim tr m s (FromBorrowed d).
+Lemma sim_FromBorrowed tr m s buf off n : Rst m s -> n <= ISZ -> sim tr m s (FromBorrowed buf off n).
 Proof.
-  intros HR Hd. unfold sim. ev. four.
-  apply R_push; auto. simpl. repeat split; auto.
+  intros HR Hd. unfold sim. ev. destruct (slice buf off n) as [d|] eqn:Hs; [|four].
+  pose proof (slice_len _ _ _ _ Hs) as Hl. subst n. four.
+  apply R_push; auto. simpl. repeat split; auto. exists buf, off. auto.
 Qed.
 
 Lemma sim_FromOwned tr m s d cap : Rst m s -> len d <= cap -> cap <= ISZ -> sim tr m s (FromOwned d cap).
@@ -182,14 +189,14 @@ Qed.
 Lemma hrel_inv al ar c d o : hrel al ar (Some c) (Some (d, o)) ->
   len d <= ISZ /\
   match o with
-  | OB => c = mkcow (PStatic d) (len d) 0
+  | OB => exists buf off, c = mkcow (PStatic buf off) (len d) 0 /\ slice buf off (len d) = Some d
   | OO false => c = mkcow PDangling 0 0 /\ d = []
   | OO true => exists a cap, c = mkcow (PHeap a) (len d) cap /\ cap <> 0 /\ cap <= ISZ /\ nth_error al a = Some (mkalloc d cap false)
   | OS r => c = mkcow (PArc r) (len d) MAXU /\ exists x, nth_error ar r = Some x /\ r_data x = d
   end.
 Proof.
   destruct c as [p l cp]; simpl; intros (A & B & C); split; auto; destruct o as [|[|]|r]; simpl in *.
-  - destruct C; subst; auto.
+  - destruct C as (? & b' & o' & ? & ?); subst. exists b', o'; auto.
   - destruct C as (? & ? & a & ? & ?); subst. exists a, cp; auto.
   - destruct C as (? & ? & ?); subst; auto.
   - destruct C as (? & ? & x & ? & ?); subst. split; auto. exists x; auto.
@@ -201,7 +208,7 @@ Proof.
   destruct (handle_cases m s h HR) as [[E1 E2]|(c & d & o & E1 & E2 & Hh)]; rewrite E1, E2.
   { four. }
   destruct (hrel_inv _ _ _ _ _ Hh) as (Hd & Hc). destruct o as [|[|]|r].
-  - subst c. ev. rewrite kind_borrowed. ev. four. unfold Rst; ev.
+  - destruct Hc as (buf & off & -> & Hs). ev. rewrite kind_borrowed. ev. four. unfold Rst; ev.
     apply (R_consume _ _ _ _ h _ d OB HR E1 E2); reflexivity.
   - destruct Hc as (a & cap & -> & H0 & H1 & Ea). ev. rewrite (kind_owned _ _ H0 H1). ev.
     erewrite free_buf_ok by exact Ea. ev. four. unfold Rst; ev.
@@ -241,7 +248,7 @@ Proof.
   destruct (handle_cases m s h HR) as [[E1 E2]|(c & d & o & E1 & E2 & Hh)]; rewrite E1, E2.
   { four. }
   destruct (hrel_inv _ _ _ _ _ Hh) as (Hd & Hc). destruct o as [|[|]|r].
-  - subst c. ev. rewrite kind_borrowed. ev. four. unfold Rst; ev. apply R_push; auto.
+  - destruct Hc as (buf & off & -> & Hs). ev. rewrite kind_borrowed. ev. four. unfold Rst; ev. apply R_push; auto.
   - destruct Hc as (a & cap & -> & H0 & H1 & Ea). ev. rewrite (kind_owned _ _ H0 H1). ev.
     rewrite (read_heap m a d cap Ea). ev. unfold nonempty.
     destruct (N.eqb_spec (len d) 0) as [Z|Z].
@@ -293,7 +300,7 @@ Proof.
   destruct (handle_cases m s h HR) as [[E1 E2]|(c & d & o & E1 & E2 & Hh)]; rewrite E1, E2.
   { four. }
   destruct (hrel_inv _ _ _ _ _ Hh) as (Hd & Hc). destruct o as [|[|]|r].
-  - subst c. ev0. rewrite kind_borrowed. ev0. rewrite read_static. ev0.
+  - destruct Hc as (buf & off & -> & Hs). ev0. rewrite kind_borrowed. ev0. rewrite (read_static _ _ _ _ Hs). ev0.
     destruct (temp_vec tr (consume m h) d) as (v & al1 & T & K). rewrite T. ev0.
     match goal with |- context [read ?m2 v] => destruct (K m2 eq_refl) as (Rd & al3 & Dv & Hal) end. rewrite Rd. ev0. rewrite Dv. ev0. four.
     unfold Rst; ev0. eapply R_temp; [|exact Hal]. apply (R_consume _ _ _ _ h _ d OB HR E1 E2); reflexivity.
@@ -324,7 +331,7 @@ Proof.
   destruct (handle_cases m s h HR) as [[E1 E2]|(c & d & o & E1 & E2 & Hh)]; rewrite E1, E2.
   { four. }
   destruct (hrel_inv _ _ _ _ _ Hh) as (Hd & Hc). destruct o as [|[|]|r]; cbn [std_borrowed snd fst].
-  - subst c. ev0. rewrite kind_borrowed. ev. rewrite kind_borrowed. ev. rewrite read_static. ev. four.
+  - destruct Hc as (buf & off & -> & Hs). ev0. rewrite kind_borrowed. ev. rewrite kind_borrowed. ev. rewrite (read_static _ _ _ _ Hs). ev. four.
     unfold Rst; ev. apply (R_consume _ _ _ _ h _ d OB HR E1 E2); reflexivity.
   - destruct Hc as (a & cap & -> & H0 & H1 & Ea). ev0. rewrite (kind_owned _ _ H0 H1). ev0. rewrite ?(kind_owned _ _ H0 H1). ev0.
     erewrite read_heap by exact Ea. ev. destruct (N.eqb_spec cap 0); [contradiction|].
@@ -378,8 +385,8 @@ Lemma clone_owned tr m s h c d o : Rst m s -> nth h (store m) None = Some c -> n
   exists t s1 v m2, clone_parts tr m c = inr (t, s1) /\ owned_parts tr s1 t = inr (v, m2) /\ exact_vec tr m d v m2.
 Proof.
   intros HR E1 E2 Hh. destruct (hrel_inv _ _ _ _ _ Hh) as (Hd & Hc). destruct o as [|[|]|r].
-  - subst c. destruct (to_vec_cases tr m d) as (v & m2 & T & X). exists (mkcow (PStatic d) (len d) 0), m, v, m2.
-    unfold clone_parts, owned_parts. cbn [c_len c_cap c_ptr]. rewrite kind_borrowed. rewrite read_static. cbn [bind]. rewrite T. auto.
+  - destruct Hc as (buf & off & -> & Hs). destruct (to_vec_cases tr m d) as (v & m2 & T & X). exists (mkcow (PStatic buf off) (len d) 0), m, v, m2.
+    unfold clone_parts, owned_parts. cbn [c_len c_cap c_ptr]. rewrite kind_borrowed. rewrite (read_static _ _ _ _ Hs). cbn [bind]. rewrite T. auto.
   - destruct Hc as (a & cap & -> & H0 & H1 & Ea).
     destruct (to_vec_cases tr m d) as (t & s1 & T & X). exists t, s1.
     unfold clone_parts at 1. cbn [c_len c_cap c_ptr]. rewrite (kind_owned _ _ H0 H1). rewrite (read_heap m a d cap Ea). cbn [bind]. rewrite T.
